@@ -269,6 +269,35 @@ Proof.
   destruct (wrapT (take dl b3)) as [[d b4]| |]; cbn [bind safeP] in *; [discriminate|discriminate|contradiction].
 Qed.
 
+(* ---------- reused receivers: the result does not depend on what the value held ---------- *)
+Lemma go_copy_fresh p : go_copy (zeros (len p)) p = p.
+Proof.
+  unfold go_copy, zeros, len. rewrite repeat_length, Nat2Z.id, firstn_all.
+  rewrite skipn_all2 by (rewrite repeat_length; lia). apply app_nil_r.
+Qed.
+Lemma decode_unencrypted_reuse old b : decode_unencrypted_into old b = decode_unencrypted b.
+Proof.
+  unfold decode_unencrypted_into, decode_unencrypted.
+  destruct (wrapT (decode_long b)) as [[ak b1]| |]; cbn [bind]; try reflexivity.
+  destruct (negb (ak =? 0)); [reflexivity|].
+  destruct (wrapT (decode_long b1)) as [[id b2]| |]; cbn [bind]; try reflexivity.
+  destruct (wrapT (decode_int32 b2)) as [[dl b3]| |]; cbn [bind]; try reflexivity.
+  destruct (Z.ltb_spec dl 0); [reflexivity|]. destruct (dl >? len b3); [reflexivity|].
+  unfold wrapT. destruct (take dl b3) as [[p b4]| |] eqn:T; cbn [map_err bind]; try reflexivity.
+  destruct (take_ok_inv dl b3 p b4 ltac:(lia) T) as [_ L].
+  unfold go_reset_append. cbn [firstn app]. rewrite <- L, go_copy_fresh. reflexivity.
+Qed.
+Lemma decode_result_reuse old b : decode_result_into old b = decode_result b.
+Proof. reflexivity. Qed.
+Lemma decode_container_reuse old b : decode_container_into old b = decode_container b.
+Proof.
+  unfold decode_container_into, decode_container.
+  destruct (wrapT (consume_id c_MessageContainerTypeID b)) as [b1| |]; cbn [bind]; try reflexivity.
+  destruct (wrapT (decode_int b1)) as [[n b2]| |]; cbn [bind]; try reflexivity.
+  destruct (container_count_bad_go n); [reflexivity|].
+  destruct (dec_msgs (S (length b2)) n b2) as [[ms b3]| |]; reflexivity.
+Qed.
+
 (* ---------- gzip ---------- *)
 Lemma len_take_z l : forall n, 0 <= n -> len (take_z n l) = Z.min n (len l).
 Proof.
